@@ -207,56 +207,50 @@ def SysQuiet (sc : SCfg) (o : Oracle) : Prop :=
 theorem noAnswer_of_quiet {sf : SFlow} {o : Oracle} (h : ∀ k, (o sf.name k .req).early = false) :
     NoAnswer sf o .req := fun k => by simp [h k]
 
-/-- **Transaction refinement** (all fuel values): outside the class of the open finding F04c the
-    engine model's transaction equals the reference interpreter's. -/
-theorem txn_eq (c : Cfg) (order : List String) (l : Loaded) (o : Oracle) (d : Dir) (fuel : Nat)
-    (hl : load c order = .ok l)
-    (hq : SysQuiet (specCfg c order) o)
-    (hf : finding (stxn (specCfg c order) o fuel d) = none) :
-    (transaction l.selected o fuel d).trace = (stxn (specCfg c order) o fuel d).trace ∧
-    (transaction l.selected o fuel d).err = (stxn (specCfg c order) o fuel d).err := by
-  obtain ⟨pl, h1, h2, h3, hnd⟩ := load_pairs hl
-  have hsel := selected_eq h2
-  have hspec := specCfg_eq h1
-  rw [hspec] at hq hf ⊢
-  rw [hsel]
-  have hs := pairsOf_ok h3 .sysStart
-  have hu := pairsOf_ok h3 .user
-  have hfi := pairsOf_ok h3 .sysEnd
+/-- **Transaction refinement on pair lists** (all fuel values): the engine's flows `mflows …` were built from
+    the connection lists whose reference views are `sflows …`. -/
+theorem txn_eq_pairs (ps pu pf : Pairs) (o : Oracle) (d : Dir) (fuel : Nat)
+    (hs : PairsOK ps) (hu : PairsOK pu) (hfi : PairsOK pf)
+    (hinj : ∀ a ∈ pu, ∀ b ∈ pu, a.1.name = b.1.name → a = b)
+    (hq : SysQuiet ⟨sflows ps, sflows pu, sflows pf⟩ o)
+    (hf : finding (stxn ⟨sflows ps, sflows pu, sflows pf⟩ o fuel d) = none) :
+    (transaction ⟨mflows ps, mflows pu, mflows pf⟩ o fuel d).trace =
+      (stxn ⟨sflows ps, sflows pu, sflows pf⟩ o fuel d).trace ∧
+    (transaction ⟨mflows ps, mflows pu, mflows pf⟩ o fuel d).err =
+      (stxn ⟨sflows ps, sflows pu, sflows pf⟩ o fuel d).err := by
   cases d with
   | res =>
     have hr := res_eq o fuel _ _ _ hs hu hfi none (by intro p _ fl k h; simp at h)
     unfold transaction stxn
     simp only
-    rcases hrr : sresponse ⟨sflows (pairsOf .sysStart pl), sflows (pairsOf .user pl), sflows (pairsOf .sysEnd pl)⟩
+    rcases hrr : sresponse ⟨sflows (ps), sflows (pu), sflows (pf)⟩
         o fuel none with ⟨rt, re⟩
     rw [hrr] at hr
     exact hr
   | req =>
-    have hqs : ∀ p ∈ pairsOf .sysStart pl, NoAnswer (sflowOf p.1) o .req := by
+    have hqs : ∀ p ∈ ps, NoAnswer (sflowOf p.1) o .req := by
       intro p hp
       apply noAnswer_of_quiet
       apply hq
       simp only [List.mem_append]
       exact Or.inl (List.mem_map.mpr ⟨p, hp, rfl⟩)
-    have hqf : ∀ p ∈ pairsOf .sysEnd pl, NoAnswer (sflowOf p.1) o .req := by
+    have hqf : ∀ p ∈ pf, NoAnswer (sflowOf p.1) o .req := by
       intro p hp
       apply noAnswer_of_quiet
       apply hq
       simp only [List.mem_append]
       exact Or.inr (List.mem_map.mpr ⟨p, hp, rfl⟩)
-    have hinj := user_names_inj h1 hnd
-    have hshape := suserReq_shape o fuel (sflows (pairsOf .user pl))
+    have hshape := suserReq_shape o fuel (sflows (pu))
     -- the classifier speaks about the answer of the user loop whenever that loop was reached
-    have hans : (sall o .req fuel (sflows (pairsOf .sysStart pl))).err = none →
-        (suserReq o fuel (sflows (pairsOf .user pl))).2.2 = none →
-        (stxn ⟨sflows (pairsOf .sysStart pl), sflows (pairsOf .user pl), sflows (pairsOf .sysEnd pl)⟩ o fuel .req).answered
-          = (suserReq o fuel (sflows (pairsOf .user pl))).2.1 ∨
-        (suserReq o fuel (sflows (pairsOf .user pl))).2.1 = none := by
+    have hans : (sall o .req fuel (sflows (ps))).err = none →
+        (suserReq o fuel (sflows (pu))).2.2 = none →
+        (stxn ⟨sflows (ps), sflows (pu), sflows (pf)⟩ o fuel .req).answered
+          = (suserReq o fuel (sflows (pu))).2.1 ∨
+        (suserReq o fuel (sflows (pu))).2.1 = none := by
       intro ha hbe
       unfold stxn
       simp only [ha, Option.isSome_none, Bool.false_eq_true, if_false]
-      rcases hss : suserReq o fuel (sflows (pairsOf .user pl)) with ⟨st, ssc, se⟩
+      rcases hss : suserReq o fuel (sflows (pu)) with ⟨st, ssc, se⟩
       rw [hss] at hbe
       simp only at hbe ⊢
       subst hbe
@@ -268,8 +262,8 @@ theorem txn_eq (c : Cfg) (order : List String) (l : Loaded) (o : Oracle) (d : Di
         | some q => obtain ⟨sf, k⟩ := q; exact Or.inl rfl
     apply req_eq o fuel _ _ _ hs hu hfi hqs hqf
     intro ha sf k hsc p hp hname
-    have hbe : (suserReq o fuel (sflows (pairsOf .user pl))).2.2 = none := by
-      cases hbe : (suserReq o fuel (sflows (pairsOf .user pl))).2.2 with
+    have hbe : (suserReq o fuel (sflows (pu))).2.2 = none := by
+      cases hbe : (suserReq o fuel (sflows (pu))).2.2 with
       | none => rfl
       | some e => have := hshape.1 (by simp [hbe]); rw [hsc] at this; simp at this
     rcases hans ha hbe with h4 | h4
@@ -283,5 +277,22 @@ theorem txn_eq (c : Cfg) (order : List String) (l : Loaded) (o : Oracle) (d : Di
       rw [hres] at hfn
       exact hfn
     · rw [hsc] at h4; simp at h4
+
+
+/-- **Transaction refinement** (all fuel values): outside the class of the open finding F04c the
+    engine model's transaction equals the reference interpreter's. -/
+theorem txn_eq (c : Cfg) (order : List String) (l : Loaded) (o : Oracle) (d : Dir) (fuel : Nat)
+    (hl : load c order = .ok l)
+    (hq : SysQuiet (specCfg c order) o)
+    (hf : finding (stxn (specCfg c order) o fuel d) = none) :
+    (transaction l.selected o fuel d).trace = (stxn (specCfg c order) o fuel d).trace ∧
+    (transaction l.selected o fuel d).err = (stxn (specCfg c order) o fuel d).err := by
+  obtain ⟨pl, h1, h2, h3, hnd⟩ := load_pairs hl
+  have hsel := selected_eq h2
+  have hspec := specCfg_eq h1
+  rw [hspec] at hq hf ⊢
+  rw [hsel]
+  exact txn_eq_pairs _ _ _ o d fuel (pairsOf_ok h3 .sysStart) (pairsOf_ok h3 .user) (pairsOf_ok h3 .sysEnd)
+    (user_names_inj h1 hnd) hq hf
 
 end LunarVerif.C04
